@@ -90,7 +90,7 @@ def _docstring_lines(path):
     import ast
     out = set()
     try:
-        tree = ast.parse(open(path).read())
+        tree = ast.parse(open(path, encoding='utf-8').read())
     except Exception:
         return out
     for n in ast.walk(tree):
@@ -118,7 +118,7 @@ def report(prop, covered):
     for f, names in sorted(byfile.items()):
         path = os.path.join(core.REPO, f)
         try:
-            top = compile(open(path).read(), path, 'exec')
+            top = compile(open(path, encoding='utf-8').read(), path, 'exec')
         except Exception:
             continue
         doc = _docstring_lines(path)
